@@ -156,6 +156,11 @@ func histCase(disc string, lines []string) string {
 
 var discs = []string{"batch", "stream", "ser"}
 
+// one history under the three disciplines in one case line
+func hist3Case(lines []string) string {
+	return sxString(L(Sym("hist3"), linesSx(lines), observe("batch", lines), observe("stream", lines), observe("ser", lines)))
+}
+
 // ---------------------------------------------------------------- alphabet
 type letter struct {
 	pass   string // non-empty: pass-through line
@@ -223,9 +228,7 @@ func exhaustive(N, L int, reduced bool) {
 					x /= len(a)
 					lines[p] = a[li].line(N, li, p)
 				}
-				for _, d := range discs {
-					buf.WriteString(histCase(d, lines))
-				}
+				buf.WriteString(hist3Case(lines))
 				if buf.Len() > 1<<20 {
 					c05mu.Lock()
 					out.WriteString(buf.String())
@@ -239,7 +242,7 @@ func exhaustive(N, L int, reduced bool) {
 		}(w)
 	}
 	wg.Wait()
-	c05stats[fmt.Sprintf("exhaustive N=%d len=%d alphabet=%d", N, L, len(a))] += total * 3
+	c05stats[fmt.Sprintf("exhaustive N=%d len=%d alphabet=%d (x3 disciplines)", N, L, len(a))] += total
 }
 
 // ---------------------------------------------------------------- clean runs
@@ -487,7 +490,11 @@ func genC05(tier string, rng *Rng) {
 			exhaustive(N, 5, false)
 			exhaustive(N, 6, true)
 		} else {
-			exhaustive(N, 4, false)
+			if N < 2 {
+				exhaustive(N, 4, false)
+			} else {
+				exhaustive(N, 3, false)
+			}
 			exhaustive(N, 5, true)
 		}
 	}
@@ -521,10 +528,8 @@ func genC05(tier string, rng *Rng) {
 	}
 	for i := 0; i < nr; i++ {
 		h := randomHistory(rng, 50, i%3 == 2)
-		for _, d := range discs {
-			out.WriteString(histCase(d, h))
-		}
-		c05stats[map[bool]string{false: "random near-valid len 50", true: "random with malformed lines len 50"}[i%3 == 2]] += 3
+		out.WriteString(hist3Case(h))
+		c05stats[map[bool]string{false: "random near-valid len 50 (x3 disciplines)", true: "random with malformed lines len 50 (x3 disciplines)"}[i%3 == 2]]++
 	}
 	libCases(rng, nr)
 	meta(map[string]interface{}{"kind": "C05 case counts by generator", "counts": c05stats})
@@ -532,7 +537,7 @@ func genC05(tier string, rng *Rng) {
 
 func replayC05(line string) {
 	n := parseSexp(line)
-	if n == nil || !n.IsList || len(n.Kids) < 3 {
+	if n == nil || !n.IsList || len(n.Kids) < 2 {
 		return
 	}
 	getLines := func(k *Node) []string {
@@ -550,6 +555,8 @@ func replayC05(line string) {
 			return
 		}
 		out.WriteString(histCase(n.Kids[1].Atom, getLines(n.Kids[2])))
+	case "hist3":
+		out.WriteString(hist3Case(getLines(n.Kids[1])))
 	case "clean":
 		if len(n.Kids) < 5 || len(n.Kids[2].Kids) != 7 {
 			return
